@@ -23,6 +23,7 @@ import (
 	"math"
 	"math/rand"
 	"os"
+	"runtime"
 	"strconv"
 	"strings"
 	"sync"
@@ -1401,22 +1402,32 @@ func idScenarios(tw *vh.TraceWriter, res *vh.Result, r0 *rand.Rand, n, g int) {
 		}
 		emitIds(tw, res, "tight-loop", batches*bsz, 1, [][]idRec{all})
 	}
-	// mass: g goroutines build providers back to back at the same time; the first root of each
+	// mass: g goroutines build one provider each AT THE SAME INSTANT (spin barrier: all leave it within
+	// a fraction of a microsecond), round after round; the first root and child of each generator.
+	// Whatever a generator is seeded from besides real entropy (clock, counter, address) coincides here.
 	{
-		per := 1500
+		rounds := 8000
 		if vh.Thorough() {
-			per = 8000
+			rounds = 40000
 		}
+		t0 := time.Now()
+		defer func() { res.Count("id_mass_ms", time.Since(t0).Milliseconds()) }()
 		recs := make([][]idRec, g)
-		startCh := make(chan struct{})
+		var arrived int64
 		var wg sync.WaitGroup
 		for gi := 0; gi < g; gi++ {
 			wg.Add(1)
 			go func(gi int) {
 				defer wg.Done()
-				<-startCh
-				my := make([]idRec, 0, 2*per)
-				for i := 0; i < per; i++ {
+				my := make([]idRec, 0, 2*rounds)
+				for i := 0; i < rounds; i++ {
+					atomic.AddInt64(&arrived, 1)
+					// soft barrier: wait for the others, but not for long (an oversubscribed machine parks threads)
+					for spins := 1; atomic.LoadInt64(&arrived) < int64(g*(i+1)) && spins < 20000; spins++ {
+						if spins%512 == 0 {
+							runtime.Gosched()
+						}
+					}
 					tr := sdktrace.NewTracerProvider(idSampler()).Tracer("ids")
 					c1, s1 := tr.Start(context.Background(), "s")
 					_, s2 := tr.Start(c1, "s")
@@ -1426,9 +1437,8 @@ func idScenarios(tw *vh.TraceWriter, res *vh.Result, r0 *rand.Rand, n, g int) {
 				recs[gi] = my
 			}(gi)
 		}
-		close(startCh)
 		wg.Wait()
-		emitIds(tw, res, "mass", g*per, g, recs)
+		emitIds(tw, res, "mass", g*rounds, g, recs)
 	}
 }
 
